@@ -188,17 +188,19 @@ func ExploreIsolated[C any](r *Run, scope string, mode Mode, caseTimeout time.Du
 	return st
 }
 
+// tailWriter keeps the beginning of the stream (a Go crash report starts with the reason and the
+// faulting goroutine); the rest is dropped.
 type tailWriter struct {
 	b   *strings.Builder
 	max int
 }
 
 func (t *tailWriter) Write(p []byte) (int, error) {
-	t.b.Write(p)
-	if t.b.Len() > 2*t.max {
-		s := t.b.String()
-		t.b.Reset()
-		t.b.WriteString(s[len(s)-t.max:])
+	if room := t.max - t.b.Len(); room > 0 {
+		if len(p) < room {
+			room = len(p)
+		}
+		t.b.Write(p[:room])
 	}
 	return len(p), nil
 }
